@@ -54,6 +54,18 @@ def impl(c):
     def run():
         m = build(c["layout"], c.get("pre"))
         out = [len(m.data), [v.offset for v in m.map]]
+        if c.get("overflow"):
+            # one more object is mapped that does not fit into 64 bits (the library only warns): whatever the
+            # map then contains, the frame must be exactly as long as the mapped bits need and the offsets cumulative
+            k, ln = c["overflow"]
+            m.add_variable(0x2000 + k, 0, ln)
+            total = sum(v.length for v in m.map)
+            offs, acc = [], 0
+            for v in m.map:
+                offs.append(acc); acc += v.length
+            if len(m.data) != (total + 7) // 8 or [v.offset for v in m.map] != offs or m.length != total:
+                raise RuntimeError(f"after an overflowing add_variable: {len(m.map)} entries / {total} bits mapped, "
+                                   f"length attribute {m.length}, frame of {len(m.data)} bytes, offsets {[v.offset for v in m.map]}")
         m.data = bytearray(c["frame"])
         for op in c["ops"]:
             var = m.map[op[1]]
@@ -244,6 +256,13 @@ def make_case(rng, layout, focus, nvals, all_values=False):
             pre.append([i, ln]); total += ln
         if total <= 64:
             c["pre"] = pre
+    if rng.random() < 0.15:
+        # a further object that no longer fits into 64 bits
+        i = rng.randrange(len(layout))
+        ln = type_bits(layout[i][0]) if layout[i][0] != BOOLEAN else 1
+        tot = sum(x for _, x in layout)
+        if tot + ln > 64:
+            c["overflow"] = [i, ln]
     return c
 
 
@@ -306,6 +325,19 @@ def gen_cases(rng, tier):
                     c["ops"] = ops
                     c["model"] = (chunk % 8 == 0)
                     cases.append(c)
+    # mappings that fill the frame (or nearly), followed by one more object that does not fit
+    U64 = 0x1B
+    for layout, extra in ([[[U32, 32], [U16, 16], [U8, 8]], [1, 16]], [[[U64, 64]], [0, 64]], [[[U32, 32], [U32, 32]], [0, 32]],
+                          [[[U16, 16], [U16, 16], [U16, 16], [U8, 4]], [0, 16]], [[[U8, 8]] * 7, [3, 16]],
+                          [[[BOOLEAN, 1], [U32, 32], [U16, 16], [U8, 7]], [2, 16]]):
+        layout = [list(e) for e in layout]
+        if any(dt not in INT_TYPES and dt != BOOLEAN for dt, _ in layout):
+            continue
+        c = make_case(rng, layout, rng.randrange(len(layout)), 2)
+        c.pop("pre", None)
+        c["overflow"] = [extra[0] if extra[0] < len(layout) else 0, type_bits(layout[extra[0] if extra[0] < len(layout) else 0][0])]
+        if sum(x for _, x in layout) + c["overflow"][1] > 64:
+            cases.append(c)
     return cases
 
 
